@@ -36,7 +36,7 @@ META = {
             'line of these runs and of seeded byte-level fuzzing is judged by TLC (Trace_Wire): one reply per line in '
             'order, reply action / specifier / SECoP error class, UTF-8 and strict JSON, survival of the handler, '
             'nothing on a second connection, same answers with malformed lines removed, same answers for every '
-            'segmentation, lines of a second sending thread never interleaved, encode/decode inverse.',
+            'segmentation, lines of a second sending thread never interleaved, encode/decode inverse. Concurrent requests of 2-3 connections at the real dispatcher run under the deterministic scheduler (every source line a preemption point) and are validated against DispSerial.tla: served one at a time, the driver gets the payload merged into the current value, every reply reports its own request (design: DispLock.tla, the unlocked variant is shown to fail).',
     'note': 'Trusted: TLC; the alpha/gamma glue of harness/props/c07.py (tokenisation of a request line into action / '
             'specifier per the SECoP grammar is cross-checked against the TLA+ definition on the whole framing '
             'alphabet; UTF-8 and strict-JSON verdicts come from the Python standard decoders). Bounded: one module, '
